@@ -341,6 +341,57 @@ def _free_names(node: ast.AST) -> set:
     return free
 
 
+def _defaults_at_definition(v: Callable, lm: ast.Lambda) -> bool:
+    """The default values written in `lm` (the source of the function `v`) were computed when
+    `v` was defined: they are replaced by what python kept in `v.__defaults__` and
+    `v.__kwdefaults__` - the names they were written with may stand for something else by now.
+
+    Returns False if that can't be done: a default is itself a function (it goes by the name it
+    was written with) and that name no longer stands for it."""
+
+    def at_definition(value: Any, written: ast.expr) -> ast.expr:
+        if type(value) in _literal_types:
+            return as_literal(value)
+        # Any other value python kept for the default (None, a tuple, a list ...)
+        # is sent the way a captured variable with that value is - unless it is
+        # something that is called (a further helper), which goes by its name.
+        if callable(value) or isinstance(value, (type, ModuleType)):
+            return written
+        return as_literal(value)
+
+    defaults = getattr(v, "__defaults__", None) or ()
+    kw_defaults = getattr(v, "__kwdefaults__", None) or {}
+
+    try:
+        names_now = global_getclosurevars(v)
+        names_now = {**names_now.builtins, **names_now.globals, **names_now.nonlocals}
+    except Exception:
+        names_now = None
+    written_defaults = (
+        list(zip(defaults, lm.args.defaults))
+        if len(defaults) > 0 and len(defaults) == len(lm.args.defaults)
+        else []
+    )
+    written_defaults += [
+        (kw_defaults[a.arg], d)
+        for a, d in zip(lm.args.kwonlyargs, lm.args.kw_defaults)
+        if a.arg in kw_defaults and d is not None
+    ]
+    if names_now is not None and any(
+        callable(value) and isinstance(d, ast.Name) and names_now.get(d.id, value) is not value
+        for value, d in written_defaults
+    ):
+        return False
+
+    if len(defaults) == len(lm.args.defaults):
+        lm.args.defaults = [at_definition(value, d) for value, d in zip(defaults, lm.args.defaults)]
+    lm.args.kw_defaults = [
+        at_definition(kw_defaults[a.arg], d) if a.arg in kw_defaults and d else d
+        for a, d in zip(lm.args.kwonlyargs, lm.args.kw_defaults)
+    ]
+    return True
+
+
 class _rewrite_captured_vars(ast.NodeTransformer):
     def __init__(self, cv: inspect.ClosureVars, inlining: Tuple[Callable, ...] = ()):
         # A variable from an enclosing function hides a global of the same name.
@@ -395,50 +446,8 @@ class _rewrite_captured_vars(ast.NodeTransformer):
                 # the function it was defined in, further helpers) is resolved where the
                 # helper was defined - not where it is used.
                 # A default value was computed when the helper was defined, not now
-                def at_definition(value: Any, written: ast.expr) -> ast.expr:
-                    if type(value) in _literal_types:
-                        return as_literal(value)
-                    # Any other value python kept for the default (None, a tuple, a list ...)
-                    # is sent the way a captured variable with that value is - unless it is
-                    # something that is called (a further helper), which goes by its name.
-                    if callable(value) or isinstance(value, (type, ModuleType)):
-                        return written
-                    return as_literal(value)
-
-                defaults = getattr(v, "__defaults__", None) or ()
-                kw_defaults = getattr(v, "__kwdefaults__", None) or {}
-
-                # A default that is itself a function goes by the name it was written with - if
-                # that name still stands for it. If not, the helper stays a call by name.
-                try:
-                    names_now = global_getclosurevars(v)
-                    names_now = {**names_now.builtins, **names_now.globals, **names_now.nonlocals}
-                except Exception:
-                    names_now = None
-                written_defaults = list(zip(defaults, lm.args.defaults[-len(defaults) :])) if (
-                    len(defaults) > 0 and len(defaults) == len(lm.args.defaults)
-                ) else []
-                written_defaults += [
-                    (kw_defaults[a.arg], d)
-                    for a, d in zip(lm.args.kwonlyargs, lm.args.kw_defaults)
-                    if a.arg in kw_defaults and d is not None
-                ]
-                if names_now is not None and any(
-                    callable(value)
-                    and isinstance(d, ast.Name)
-                    and names_now.get(d.id, value) is not value
-                    for value, d in written_defaults
-                ):
+                if not _defaults_at_definition(v, lm):
                     return node
-
-                if len(defaults) == len(lm.args.defaults):
-                    lm.args.defaults = [
-                        at_definition(value, d) for value, d in zip(defaults, lm.args.defaults)
-                    ]
-                lm.args.kw_defaults = [
-                    at_definition(kw_defaults[a.arg], d) if a.arg in kw_defaults and d else d
-                    for a, d in zip(lm.args.kwonlyargs, lm.args.kw_defaults)
-                ]
 
                 # (a value the helper captures that can't be sent - `ValueError` - is the
                 # caller's to hear about, as it is for the lambda that was passed)
@@ -1498,6 +1507,9 @@ def parse_as_ast(
             raise ValueError(f"Unable to recover source for function {ast_source}.")
 
         # Since this is a function in python, we can look for lambda capture.
+        # (its default values are what python computed when it was made, like a helper's)
+        if isinstance(src_ast, ast.Lambda):
+            _defaults_at_definition(ast_source, src_ast)
         call_args = global_getclosurevars(ast_source)
         return _resolve_called_lambdas().visit(_rewrite_captured_vars(call_args).visit(src_ast))
 
